@@ -23,6 +23,13 @@ let types_of s = if s = "-" then [] else List.map n_of_s (String.split_on_char '
 let b_of s = (s = "1")
 let sb b = if b then "true" else "false"
 
+let rec sgroups = function
+  | [] -> []
+  | rt :: nrr :: isn :: owner :: next :: types :: state :: signer :: ce :: rest ->
+      (c14_mkG (n_of_s rt) (n_of_s nrr) (b_of isn) (name_of_hex owner) (name_of_hex next) (types_of types)
+        (state = "Secure") (name_of_hex signer) (oname_of_hex ce),
+       (match state with "Secure" -> Secure | "Insecure" -> Insecure | "Bogus" -> Bogus | "Indeterminate" -> Indeterminate | _ -> failwith "bad state")) :: sgroups rest
+  | _ -> failwith "bad group words"
 let rec groups = function
   | [] -> []
   | rt :: nrr :: isn :: owner :: next :: types :: secure :: signer :: ce :: rest ->
@@ -55,15 +62,19 @@ let handle = function
   | ["inr"; t; o; n] -> sb (c14_nsec_in_range (name_of_hex t) (name_of_hex o) (name_of_hex n))
   | ["inr3"; t; o; n] -> sb (c14_nsec3_in_range (bytes_of_hex t) (bytes_of_hex o) (bytes_of_hex n))
   | ["sup3"; h] -> sb (c14_supported_nsec3_hash (n_of_s h))
-  | ["l2h"; l] -> show_o (fun h -> "Ok " ^ hex_of_bytes h) (c14_label_to_hash (bytes_of_hex l))
+  | ["l2h"; l] ->
+      (* the two error kinds (not UTF-8 / not Base32hex) are one word: the code may merge them *)
+      (match c14_label_to_hash (bytes_of_hex l) with Err _ -> "Err" | o -> show_o (fun h -> "Ok " ^ hex_of_bytes h) o)
   | "nodata" :: t :: rt :: signer :: gs -> show_o show_n (c14_nodata (name_of_hex t) (groups gs) (n_of_s rt) (name_of_hex signer))
   | "ndwild" :: t :: rt :: signer :: gs -> show_o show_n (c14_nodata_wildcard (name_of_hex t) (groups gs) (n_of_s rt) (name_of_hex signer))
   | "notex" :: t :: signer :: gs -> show_o show_nx (c14_not_exists (name_of_hex t) (groups gs) (name_of_hex signer))
   | "nxdom" :: t :: signer :: gs -> show_o show_nx (c14_nxdomain (name_of_hex t) (groups gs) (name_of_hex signer))
+  | "negmsg" :: nx :: t :: qt :: signer :: gs ->
+      show_o (fun (s, e) -> (match s with Secure -> "Secure" | Insecure -> "Insecure" | Bogus -> "Bogus" | Indeterminate -> "Indeterminate") ^ " " ^ string_of_int (int_of_n e))
+        (negative_msg_state (b_of nx) (name_of_hex t) (n_of_s qt) (name_of_hex signer) (sgroups gs))
   | ["sigtime"; now; inc; exp] -> sb (c14_sig_time_ok (n_of_s now) (n_of_s inc) (n_of_s exp))
   | ["wce"; owner; labels] -> (match c14_wildcard_ce (name_of_hex owner) (n_of_s labels) with None -> "-" | Some ce -> hex_of_name ce)
   | "answer" :: q :: qt :: maxc :: gs ->
-      show_o (function None -> "None" | Some s -> str_vstate s)
-        (positive_answer_state (name_of_hex q) (n_of_s qt) (n_of_s maxc) (agroups gs))
+      show_o str_vstate (answer_msg_state (name_of_hex q) (n_of_s qt) (n_of_s maxc) (agroups gs))
   | _ -> failwith "bad case line"
 let () = main handle
